@@ -503,7 +503,7 @@ PROPS["C19"] = dict(
           "time by any of the three routes; indirect requests and TCP pings are only issued after the probe timeout; GetHealthScore equals a clamped counter "
           "model (-1 answered, +1 failed without nack-capable helpers, + expected - received nacks otherwise) after every probe. relay role: 1-6 indirect-ping "
           "requests (with/without nack, with/without source address, repeated requester numbers, 1-700 ms apart) whose target answers in time / twice / late / "
-          "never / with a foreign number / or whose acknowledgement (the node numbers its pings consecutively, so the number is known) already waits behind the request in the same packet; the relay may itself hold the target as dead or departed (it is asked all the same): fresh sequence number towards the target, exactly one relayed ack under the requester's number 100.4 ms after the "
+          "never / with a foreign number / or whose acknowledgement (the node numbers its pings consecutively, so the number is known) already waits behind the request in the same packet; the relay may itself hold the target as dead or departed (it is asked all the same) and its own health score may have been raised by 1/2/5 refuted accusations first (its deadlines must not depend on it): fresh sequence number towards the target, exactly one relayed ack under the requester's number 100.4 ms after the "
           "request, or exactly one nack at the probe timeout iff requested, nothing else. send failures: the node's health score is first raised by 0-3 refuted accusations; each of 1-5 probes of the subject is answered, or its ping cannot be sent because of a local error (the score does not move, nobody is asked to help, nobody is suspected) or because the transport blames the peer (helpers are asked at once, the probe fails at its deadline and costs health by the nack rule); GetHealthScore equals the model after every probe. cleanup (overlay hook): no pending handler survives its deadline. "
           "User pings (Ping(), same acknowledgement table): 1-6 calls whose target answers with the right number early, late, from a third party, with another / the previous call's number, with a nack, or not at all, with unrelated acknowledgements in between: success iff the own number arrived within ProbeTimeout, round trip as sent, return by the deadline, health untouched. "
           "non-trivial = probe with a late, foreign or duplicate acknowledgement / any relay request / handlers observed pending / a user ping that is not simply answered"),
